@@ -27,6 +27,7 @@ Kinds == {"good", "failexpr", "failcb"}
 
 VARIABLES
   db,         \* number of installed updates
+  vals,       \* vals[i + 1] = the observable payload of the state after i installs (an update may leave it unchanged)
   lpc,        \* loop: "select","ack","install","notify","adding","hanging","wedged","dead","stopped"
   lreq,       \* request the loop is handling
   pending,    \* watchers still to be visited in the current notify / hangup phase
@@ -41,14 +42,15 @@ VARIABLES
   calls,      \* client -> queue of calls that have not returned yet
   nops,       \* client -> operations issued so far
   acks        \* sequence of <<client, ok>> in the order the loop answered updates
-vars == <<db, lpc, lreq, pending, watchers, wkind, subAt, delivered, closed, closedErr, out, acked, calls, nops, acks>>
+vars == <<db, vals, lpc, lreq, pending, watchers, wkind, subAt, delivered, closed, closedErr, out, acked, calls, nops, acks>>
 
 WIds == 1..MaxWatchers
 Alloc == DOMAIN wkind
-Fails(w, n) == wkind[w] # "good" /\ n = FailAt
+\* failing observers fail on states whose payload is FailAt
+Fails(w, n) == wkind[w] # "good" /\ vals[n + 1] = FailAt
 
 Init ==
-  /\ db = 0 /\ lpc = "select" /\ lreq = None /\ pending = {} /\ watchers = {}
+  /\ db = 0 /\ vals = <<0>> /\ lpc = "select" /\ lreq = None /\ pending = {} /\ watchers = {}
   /\ wkind = <<>> /\ subAt = <<>> /\ delivered = <<>> /\ closed = <<>> /\ closedErr = <<>>
   /\ out = [c \in Clients |-> <<>>] /\ acked = [c \in Clients |-> 0]
   /\ calls = [c \in Clients |-> <<>>] /\ nops = [c \in Clients |-> 0] /\ acks = <<>>
@@ -60,18 +62,19 @@ CanIssue(c) == nops[c] < MaxOps /\ (Pipelined \/ calls[c] = <<>>) /\ Len(calls[c
 Enqueue(c, r) == /\ out' = [out EXCEPT ![c] = Append(@, r)]
                  /\ calls' = [calls EXCEPT ![c] = Append(@, r)]
                  /\ nops' = [nops EXCEPT ![c] = @ + 1]
-IssueUpdate(c, ok) == /\ CanIssue(c) /\ Enqueue(c, [op |-> "update", c |-> c, ok |-> ok])
-                      /\ UNCHANGED <<db, lpc, lreq, pending, watchers, wkind, subAt, delivered, closed, closedErr, acked, acks>>
+\* inc = FALSE: a valid update whose value equals the current one (it is still answered and installed)
+IssueUpdate(c, ok, inc) == /\ CanIssue(c) /\ Enqueue(c, [op |-> "update", c |-> c, ok |-> ok, inc |-> inc])
+                      /\ UNCHANGED <<db, vals, lpc, lreq, pending, watchers, wkind, subAt, delivered, closed, closedErr, acked, acks>>
 IssueObserve(c, w, k) == /\ CanIssue(c) /\ w \in WIds \ Alloc /\ \A v \in WIds \ Alloc : w <= v
                          /\ wkind' = Ext(wkind, w, k) /\ delivered' = Ext(delivered, w, <<>>)
                          /\ closed' = Ext(closed, w, 0) /\ closedErr' = Ext(closedErr, w, FALSE)
                          /\ Enqueue(c, [op |-> "observe", c |-> c, w |-> w])
-                         /\ UNCHANGED <<db, lpc, lreq, pending, watchers, subAt, acked, acks>>
+                         /\ UNCHANGED <<db, vals, lpc, lreq, pending, watchers, subAt, acked, acks>>
 IssueCancel(c, w) == /\ CanIssue(c) /\ w \in Alloc
                      /\ Enqueue(c, [op |-> "cancel", c |-> c, w |-> w])
-                     /\ UNCHANGED <<db, lpc, lreq, pending, watchers, wkind, subAt, delivered, closed, closedErr, acked, acks>>
+                     /\ UNCHANGED <<db, vals, lpc, lreq, pending, watchers, wkind, subAt, delivered, closed, closedErr, acked, acks>>
 IssueHangup(c) == /\ CanIssue(c) /\ Enqueue(c, [op |-> "hangup", c |-> c])
-                  /\ UNCHANGED <<db, lpc, lreq, pending, watchers, wkind, subAt, delivered, closed, closedErr, acked, acks>>
+                  /\ UNCHANGED <<db, vals, lpc, lreq, pending, watchers, wkind, subAt, delivered, closed, closedErr, acked, acks>>
 \* a call returns: an update needs its reply; the other calls complete with the rendezvous
 Received(c) == Len(out[c]) < Len(calls[c])          \* the oldest call has been taken by the loop
 Return(c) == /\ calls[c] # <<>>
@@ -80,7 +83,7 @@ Return(c) == /\ calls[c] # <<>>
                   /\ (r.op # "update" /\ ~Pipelined => Received(c))
                   /\ acked' = [acked EXCEPT ![c] = IF r.op = "update" THEN @ - 1 ELSE @]
              /\ calls' = [calls EXCEPT ![c] = Tail(@)]
-             /\ UNCHANGED <<db, lpc, lreq, pending, watchers, wkind, subAt, delivered, closed, closedErr, out, nops, acks>>
+             /\ UNCHANGED <<db, vals, lpc, lreq, pending, watchers, wkind, subAt, delivered, closed, closedErr, out, nops, acks>>
 
 \* ---- the loop -----------------------------------------------------------------------------
 Take(c) == out' = [out EXCEPT ![c] = Tail(@)]
@@ -88,15 +91,16 @@ AtSelect(c, op) == lpc = "select" /\ out[c] # <<>> /\ Head(out[c]).op = op
 
 RecvUpdate(c) == /\ AtSelect(c, "update") /\ Take(c)
                  /\ lreq' = Head(out[c]) /\ lpc' = "ack"
-                 /\ UNCHANGED <<db, pending, watchers, wkind, subAt, delivered, closed, closedErr, acked, calls, nops, acks>>
+                 /\ UNCHANGED <<db, vals, pending, watchers, wkind, subAt, delivered, closed, closedErr, acked, calls, nops, acks>>
 \* the reply is sent before the new state is installed
 AckSend == /\ lpc = "ack"
            /\ acked' = [acked EXCEPT ![lreq.c] = @ + 1]
            /\ acks' = Append(acks, <<lreq.c, lreq.ok>>)
            /\ lpc' = IF lreq.ok THEN "install" ELSE "select"
-           /\ UNCHANGED <<db, lreq, pending, watchers, wkind, subAt, delivered, closed, closedErr, out, calls, nops>>
+           /\ UNCHANGED <<db, vals, lreq, pending, watchers, wkind, subAt, delivered, closed, closedErr, out, calls, nops>>
 Install == /\ lpc = "install"
            /\ db' = db + 1 /\ pending' = watchers
+           /\ vals' = Append(vals, vals[Len(vals)] + (IF lreq.inc THEN 1 ELSE 0))
            /\ lpc' = IF watchers = {} THEN "select" ELSE "notify"
            /\ UNCHANGED <<lreq, watchers, wkind, subAt, delivered, closed, closedErr, out, acked, calls, nops, acks>>
 
@@ -119,17 +123,17 @@ SelfCancelFromLoop(w) ==        \* as the pinned commit has it: update() calls c
 Notify(w) == /\ lpc = "notify" /\ w \in pending
              /\ pending' = pending \ {w}
              /\ (Visit(w, IF pending \ {w} = {} THEN "select" ELSE "notify") \/ SelfCancelFromLoop(w))
-             /\ UNCHANGED <<db, lreq, wkind, subAt, out, acked, calls, nops, acks>>
+             /\ UNCHANGED <<db, vals, lreq, wkind, subAt, out, acked, calls, nops, acks>>
 
 RecvObserve(c) == /\ AtSelect(c, "observe") /\ Take(c)
                   /\ LET w == Head(out[c]).w IN
                        /\ watchers' = watchers \cup {w} /\ subAt' = Ext(subAt, w, db)
                   /\ lreq' = Head(out[c]) /\ lpc' = "adding"
-                  /\ UNCHANGED <<db, pending, wkind, delivered, closed, closedErr, acked, calls, nops, acks>>
+                  /\ UNCHANGED <<db, vals, pending, wkind, delivered, closed, closedErr, acked, calls, nops, acks>>
 \* a new watcher is immediately sent the current state
 AddDeliver == /\ lpc = "adding"
               /\ (Visit(lreq.w, "select") \/ SelfCancelFromLoop(lreq.w))
-              /\ UNCHANGED <<db, lreq, pending, wkind, subAt, out, acked, calls, nops, acks>>
+              /\ UNCHANGED <<db, vals, lreq, pending, wkind, subAt, out, acked, calls, nops, acks>>
 
 RecvCancel(c) == /\ AtSelect(c, "cancel") /\ Take(c)
                  /\ LET w == Head(out[c]).w IN
@@ -139,23 +143,23 @@ RecvCancel(c) == /\ AtSelect(c, "cancel") /\ Take(c)
                       ELSE /\ UNCHANGED <<watchers, closed>>
                            /\ lpc' = IF AsIs THEN "dead" ELSE "select"       \* CancelUnknownCrash
                  /\ lreq' = Head(out[c])
-                 /\ UNCHANGED <<db, pending, wkind, subAt, delivered, closedErr, acked, calls, nops, acks>>
+                 /\ UNCHANGED <<db, vals, pending, wkind, subAt, delivered, closedErr, acked, calls, nops, acks>>
 
 RecvHangup(c) == /\ AtSelect(c, "hangup") /\ Take(c)
                  /\ pending' = watchers /\ lreq' = Head(out[c])
                  /\ lpc' = IF watchers = {} THEN "select" ELSE "hanging"
-                 /\ UNCHANGED <<db, watchers, wkind, subAt, delivered, closed, closedErr, acked, calls, nops, acks>>
+                 /\ UNCHANGED <<db, vals, watchers, wkind, subAt, delivered, closed, closedErr, acked, calls, nops, acks>>
 CloseOne(w) == /\ lpc = "hanging" /\ w \in pending
                /\ pending' = pending \ {w} /\ watchers' = watchers \ {w}
                /\ closed' = [closed EXCEPT ![w] = @ + 1]
                /\ lpc' = IF pending \ {w} = {} THEN "select" ELSE "hanging"
-               /\ UNCHANGED <<db, lreq, wkind, subAt, delivered, closedErr, out, acked, calls, nops, acks>>
+               /\ UNCHANGED <<db, vals, lreq, wkind, subAt, delivered, closedErr, out, acked, calls, nops, acks>>
 
 LoopStep == \/ \E c \in Clients : RecvUpdate(c) \/ RecvObserve(c) \/ RecvCancel(c) \/ RecvHangup(c)
             \/ AckSend \/ Install \/ AddDeliver
             \/ \E w \in WIds : Notify(w) \/ CloseOne(w)
 ClientStep == \E c \in Clients :
-                 \/ \E ok \in BOOLEAN : IssueUpdate(c, ok)
+                 \/ \E ok \in BOOLEAN, inc \in BOOLEAN : (ok \/ inc) /\ IssueUpdate(c, ok, inc)
                  \/ \E w \in WIds, k \in Kinds : IssueObserve(c, w, k)
                  \/ \E w \in WIds : IssueCancel(c, w)
                  \/ IssueHangup(c)
@@ -164,7 +168,7 @@ Next == LoopStep \/ ClientStep
 Spec == Init /\ [][Next]_vars /\ WF_vars(LoopStep) /\ \A c \in Clients : WF_vars(Return(c))
 
 \* ---- properties ----------------------------------------------------------------------------
-TypeOK == /\ db \in Nat /\ watchers \subseteq Alloc /\ pending \subseteq Alloc
+TypeOK == /\ db \in Nat /\ Len(vals) = db + 1 /\ watchers \subseteq Alloc /\ pending \subseteq Alloc
           /\ lpc \in {"select", "ack", "install", "notify", "adding", "hanging", "wedged", "dead", "stopped"}
 \* the engine never wedges or dies
 NoWedge == lpc \notin {"wedged", "dead"}
